@@ -248,6 +248,21 @@ class C17(Check):
                 case["picks2"] = [[rng.randrange(1000), rng.randrange(1000)] for _ in range(n2)]
             cases.append(case)
             self.count(case)
+        # wide instances: more than 256 operations on one machine / in one job (counters must not be narrow);
+        # a few dispatches are enough to see whether a machine or job is declared finished too early
+        for k in range(2 if self.tier == "quick" else 6):
+            if k % 2 == 0:
+                spec = [[[[0], rng.randint(1, 3)], [[0 if j % 3 else 1], rng.randint(1, 3)]] for j in range(129 + k)]
+                spec[0][1][0] = [0]
+                while sum(1 for job in spec for ms, _ in job if 0 in ms) < 258:
+                    spec.append([[[0], 1]])
+            else:
+                spec = [[[[i % 2], rng.randint(1, 2)] for i in range(258 + k)], [[[1], 2], [[0], 1]]]
+            case = {"spec": spec, "filters": [], "builder": rng.choice([1, 2, 3]), "pre": [], "rm_m": 1, "rm_j": 1,
+                    "picks": [[rng.randrange(1000), 0] for _ in range(rng.randint(4, 9))], "reset_at_end": 0}
+            cases.append(case)
+            self.count(case)
+            self.note("wide_instance_more_than_256_operations_per_machine_or_job")
         return cases
 
     def count(self, case):
